@@ -263,6 +263,8 @@ func genStep(rt *rapid.T, p *Profile, cfg *Config, i int) Step { //nolint:cyclop
 		st.RespLost = rapid.IntRange(0, 11).Draw(rt, "respLost") == 0
 		if rapid.IntRange(0, 7).Draw(rt, "chanTie") == 0 {
 			st.Rel, st.RespLost = "tie", false // sent at the very instant the binding expires
+		} else if rapid.IntRange(0, 9).Draw(rt, "chanAllocTie") == 0 {
+			st.Rel, st.RespLost = "alloc-tie", false // sent at the very instant the allocation expires
 		}
 	case "Send":
 		st.P = []int{peer("p")}
